@@ -53,11 +53,22 @@ def base_trees() -> Iterator[Tuple[str, Program]]:
         Choice(prompt="c", defaults=[("M2", S("A"))], children=[Cfg("M1", "bool", prompt="m1"), Cfg("M2", "bool", prompt="m2"), Cfg("M3", "bool", prompt="m3", prompt_cond=S("A"))]),
         Cfg("X", "hex", prompt="x", defaults=[(L("0x10"), S("M2")), (L("0x20"), None)]),
     ]))
+    yield rev_tree()
     yield ("bools", Program(children=[
         Cfg("A", "bool", prompt="a", defaults=[(L("y"), None)]),
         Cfg("X", "bool", prompt="x", defaults=[(L("y"), S("A"))]),
         Menu(title="m", depends=[S("X")], children=[Cfg("Y", "float", prompt="y", defaults=[(L("1.5"), None)]), Cfg("Z", "bool", prompt="z", defaults=[(L("y"), None)])]),
         Cfg("S", "bool", prompt="s", selects=[("X", None)]),
+    ]))
+
+
+def rev_tree() -> Tuple[str, Program]:
+    # options defined BEFORE the options they depend on (their entries precede their dependencies' entries in the file)
+    return ("reversed", Program(children=[
+        Cfg("W", "int", prompt="w", depends=[S("G")], defaults=[(L("7"), S("T")), (L("5"), None)]),
+        Cfg("V", "string", prompt="v", prompt_cond=S("G"), defaults=[(L('"vd"'), None)]),
+        Cfg("T", "bool", prompt="t"),
+        Cfg("G", "bool", prompt="g", defaults=[(L("y"), None)]),
     ]))
 
 
@@ -80,6 +91,13 @@ def changes(tree: str, p: Program) -> Iterator[Tuple[str, Program]]:
         q = copy.deepcopy(p); find(q, "P").defaults = [(L("9"), None)]; yield ("promptless_default_changed", q)
         q = copy.deepcopy(p); find(q, "A").wsets.append(("X", L("8"), None)); yield ("set_default_source_added", q)
         q = copy.deepcopy(p); find(q, "H").defaults = [(L('"new hd"'), None)]; yield ("hidden_default_changed", q)
+        # an option removed and re-added under the same name with another type (bool -> int)
+        q = copy.deepcopy(p); a = find(q, "A"); a.type = "int"; a.defaults = [(L("0"), None)]; yield ("removed_and_readded_as_int", q)
+    elif tree == "reversed":
+        q = copy.deepcopy(p); find(q, "G").defaults = [(L("n"), None)]; yield ("upstream_default_changed", q)
+        q = copy.deepcopy(p); find(q, "W").defaults = [(L("6"), None)]; yield ("default_literal", q)
+        q = copy.deepcopy(p); find(q, "T").defaults = [(L("y"), None)]; yield ("default_condition_source_changed", q)
+        q = copy.deepcopy(p); find(q, "G").defaults = [(L("n"), None)]; find(q, "W").defaults = [(L("6"), None)]; yield ("upstream_and_own_default_changed", q)
     elif tree == "choice":
         q = copy.deepcopy(p); kgen.choices(q)[0].defaults = [("M1", None)]; yield ("choice_default_changed", q)
         q = copy.deepcopy(p); kgen.choices(q)[0].defaults = [("M3", S("A")), ("M2", None)]; yield ("choice_default_to_conditional_member", q)
@@ -95,7 +113,9 @@ def changes(tree: str, p: Program) -> Iterator[Tuple[str, Program]]:
         q = copy.deepcopy(p); find(q, "Z").depends.append(Not(S("A"))); yield ("dependency_added", q)
 
 
+OPS_REV = [("set", "G", "n"), ("set", "G", "y"), ("set", "T", "y"), ("set", "W", "3"), ("set", "V", "vu"), ("reset", "G"), ("reset", "W")]
 OPS = {
+    "reversed": OPS_REV,
     "ints": [("set", "A", "y"), ("set", "A", "n"), ("set", "X", "3"), ("set", "Y", "8"), ("set", "H", "hu"), ("reset", "X"), ("reset", "A"), ("unset", "Y")],
     "choice": [("set", "A", "y"), ("set", "M1", "y"), ("set", "M2", "y"), ("set", "M3", "y"), ("set", "X", "0x33"), ("reset", "M1"), ("reset", "A")],
     "bools": [("set", "A", "n"), ("set", "X", "n"), ("set", "X", "y"), ("set", "Y", "3.5"), ("set", "S", "y"), ("set", "Z", "n"), ("reset", "X"), ("reset", "A")],
@@ -183,7 +203,7 @@ def patched_tree(tnew: Program, f_unmarked: str, marked: List[Tuple[str, str]]) 
         inst.load_text(f_unmarked)
         k = inst.k
         progressed = False
-        for s in k.unique_defined_syms:
+        for s in dependency_order(k):
             name = s.name
             if s.choice is not None:
                 ch = s.choice
@@ -210,6 +230,8 @@ def patched_tree(tnew: Program, f_unmarked: str, marked: List[Tuple[str, str]]) 
             raw = stored[name]
             if all(n.prompt is None for n in s.nodes):
                 continue
+            if raw == "n" and s.orig_type != c.BOOL:
+                continue  # `# CONFIG_X is not set` says nothing about a non-bool option
             if s._user_value is not None or not s.visibility:
                 continue
             v = unq(raw) if s.orig_type == c.STRING else raw
@@ -227,6 +249,41 @@ def patched_tree(tnew: Program, f_unmarked: str, marked: List[Tuple[str, str]]) 
         if not progressed:
             break
     return cur, mism
+
+
+def dependency_order(k) -> list:
+    """defined symbols, those an option depends on first (ties in definition order) -- from the references in the tree"""
+    c = impl.core()
+    syms = list(k.unique_defined_syms)
+    pos = {s: i for i, s in enumerate(syms)}
+    deps = {}
+    for s in syms:
+        d = set()
+        for x in s.dependencies:
+            if isinstance(x, c.Choice):
+                d.update(m for m in x.syms if m is not s)
+            elif x in pos:
+                d.add(x)
+        if s.choice is not None:
+            for x in s.choice.dependencies:
+                if isinstance(x, c.Symbol) and x in pos and x.choice is not s.choice:
+                    d.add(x)
+        deps[s] = d
+    out, done, visiting = [], set(), set()
+
+    def visit(s):
+        if s in done or s in visiting:
+            return
+        visiting.add(s)
+        for x in sorted(deps[s], key=lambda y: pos[y]):
+            visit(x)
+        visiting.discard(s)
+        done.add(s)
+        out.append(s)
+
+    for s in syms:
+        visit(s)
+    return out
 
 
 def run_item(item) -> common.Result:
@@ -294,6 +351,13 @@ def run_item(item) -> common.Result:
                             continue
                         if all(nd.prompt is None for nd in s.nodes):
                             continue
+                        cc = impl.core()
+                        vv = unq(raw) if s.orig_type == cc.STRING else raw
+                        if s.orig_type == cc.BOOL:
+                            if vv not in ("y", "n"):
+                                continue
+                        elif raw == "n" or not s.value_is_valid(vv) or (s.orig_type == cc.STRING and not (raw.startswith('"') and raw.endswith('"'))):
+                            continue  # not a valid value for the option's (new) type: legitimately ignored
                         if user_after_load.get(name) is None:
                             r.violation({"kind": "unmarked_entry_not_a_user_value", "change": change, "policy": policy}, f"{label0} file after {h0}: unmarked entry {name}={raw} is not a user value after load", case)
                     if rec != exp_mism:
@@ -323,6 +387,8 @@ def kconfig_mismatches(fn, fprime: str, marked) -> set:
         if s is None or not s.nodes or s.choice is not None or all(n.prompt is None for n in s.nodes):
             continue
         if s._user_value is not None or not s.visibility:
+            continue
+        if raw == "n" and s.orig_type != c.BOOL:
             continue
         v = unq(raw) if s.orig_type == c.STRING else raw
         if s.str_value != v:
